@@ -258,6 +258,9 @@ class ExprMixin:
         return VBool(conds[0] if len(conds) == 1 else z3.And(*conds))
 
     def compare(self, op, a, b, p):
+        if isinstance(op, (ast.Lt, ast.LtE, ast.Gt, ast.GtE)):
+            # ordering on an Optional value that the path (or an enclosing antecedent) has tested against None
+            a, b = self.narrow(a, p), self.narrow(b, p)
         if isinstance(op, ast.Eq):
             return self.eq(a, b, p)
         if isinstance(op, ast.NotEq):
@@ -312,6 +315,8 @@ class ExprMixin:
             return z3.Contains(container.t, item.t)
         if isinstance(container, VList) and container.t is not None and container.elem == "int":
             return z3.Contains(container.t, z3.Unit(self.as_int(item)))
+        if isinstance(container, VList) and container.t is not None and container.elem in ("str", "bytes", "obj"):
+            return z3.Contains(container.t, z3.Unit(self.term_of(item)))
         raise Unsupported(f"'in' on {container!r}")
 
     # ------------------------------------------------------------------ arithmetic
@@ -327,6 +332,8 @@ class ExprMixin:
         return None
 
     def binop(self, op, a, b, p, node=None):
+        if p is not None and (isinstance(a, VOpt) or isinstance(b, VOpt)):
+            a, b = self.narrow(a, p), self.narrow(b, p)
         if op is ast.Add and isinstance(a, VBytes) and isinstance(b, VBytes):
             return VBytes(self.flat_concat(a.t, b.t), a.kind if a.kind != "memoryview" else "bytes")
         if op is ast.Add and isinstance(a, VList) and isinstance(b, VList):
@@ -629,7 +636,9 @@ class ExprMixin:
             isnone = self.func(f"fld_{fname}_isnone", Obj, B)(ref)
             return VOpt(isnone, self.sym_field(ref, fname, inner, module))
         if ftype in ("int",):
-            return VInt(self.func(f"fld_{fname}", Obj, I)(ref))
+            t = self.func(f"fld_{fname}", Obj, I)(ref)
+            self.int_fields_seen.append(t)
+            return VInt(t)
         if ftype == "bool":
             return VBool(self.func(f"fld_{fname}", Obj, B)(ref))
         if ftype == "str":
@@ -642,13 +651,15 @@ class ExprMixin:
                 return VList(t=self.func(f"fld_{fname}", Obj, SeqStr)(ref), elem="str")
             if inner == "bytes":
                 return VList(t=self.func(f"fld_{fname}", Obj, SeqSeq)(ref), elem="bytes")
-            return VList(t=self.func(f"fld_{fname}", Obj, SeqObj)(ref), elem="obj")
+            return VList(t=self.func(f"fld_{fname}", Obj, SeqObj)(ref), elem="obj", elem_cls=self.prog.class_by_name(module, inner.split(".")[-1]))
         ci = self.prog.class_by_name(module, ftype.split(".")[-1])
         if ci is not None:
             if ci.kind == "enum":
                 if ci.enum_mixin == "str":
                     return VStr(self.func(f"fld_{fname}", Obj, Str)(ref))
-                return VInt(self.func(f"fld_{fname}", Obj, I)(ref))
+                t = self.func(f"fld_{fname}", Obj, I)(ref)
+                self.int_fields_seen.append(t)
+                return VInt(t)
             return VSym(self.func(f"fld_{fname}", Obj, Obj)(ref), ci)
         raise Unsupported(f"symbolic field {fname}: {ftype}")
 
@@ -703,7 +714,7 @@ class ExprMixin:
             if attr in base.fields:
                 return base.fields[attr]
             raise Unsupported(f"exception attribute {attr}")
-        if isinstance(base, (VBytes, VStr, VList, VSet, VDict)):
+        if isinstance(base, (VBytes, VStr, VList, VSet, VDict)) or (isinstance(base, VOpaque) and base.what == "regex"):
             return VFunc("method", attr, base)
         if isinstance(base, VFunc) and base.kind == "builtin":
             return VFunc("builtin", f"{base.target}.{attr}")
@@ -728,6 +739,34 @@ class ExprMixin:
         q = Path(); q.spec = True
         return self.ev(fdef, q, ci.module)
 
+    def is_class_constant(self, ci, attr):
+        for c in self.prog.mro(ci) + self.prog.subclasses(ci):
+            if attr in c.consts:
+                return True
+            for fname, fann, fdef in c.fields:
+                if fname == attr and isinstance(fdef, ast.Call) and any(kw.arg == "init" and isinstance(kw.value, ast.Constant) and kw.value.value is False for kw in fdef.keywords):
+                    return True
+        return False
+
+    def class_constant(self, c, attr):
+        """Value of class-level attribute `attr` for dynamic class c (first definition along the MRO), or None."""
+        for k in self.prog.mro(c):
+            if attr in k.consts:
+                q = Path(); q.spec = True
+                try:
+                    return self.ev(k.consts[attr], q, k.module)
+                except Unsupported:
+                    return None
+            for fname, fann, fdef in k.fields:
+                if fname == attr:
+                    if fdef is None:
+                        return None
+                    try:
+                        return self.field_default(fdef, k)
+                    except Unsupported:
+                        return None
+        return None
+
     def sym_getattr(self, base, attr, p, module):
         """Attribute of a symbolic object: search the declared class and all its subclasses for the field."""
         ci = base.static_cls
@@ -739,6 +778,22 @@ class ExprMixin:
             for fname, fann, fdef in c.fields:
                 if fname == attr:
                     found.append((self.ann_text(fann), c.module))
+        # class-level constants (dataclass fields with init=False and a default, or plain class attributes such as
+        # tag_number = 1): the value is decided by the dynamic class (closed world: the classes of the program)
+        if ci is not None and self.is_class_constant(ci, attr):
+            dyn = self.prog.subclasses(ci)
+            vals = [(c, self.class_constant(c, attr)) for c in dyn]
+            if all(v is not None for _, v in vals):
+                reprs = {repr(getattr(v, "t", None)) + repr(getattr(v, "lit", None)) for _, v in vals}
+                if len(reprs) == 1:
+                    return vals[0][1]
+                if found and all(isinstance(v, VInt) for _, v in vals):
+                    fv = self.sym_field(base.t, attr, "int", found[0][1])
+                    cls_of = self.func("class_of", Obj, I)
+                    p.pc.append(z3.Or(*[cls_of(base.t) == self.class_id(c) for c, _ in vals]))
+                    for c, v in vals:
+                        p.pc.append(z3.Implies(cls_of(base.t) == self.class_id(c), fv.t == v.t))
+                    return fv
         if found:
             # the same field name may be declared with different optionality in sibling classes (BindRequest.name: str,
             # ExtendedResponse.name: Optional[str]): use the most general declaration
